@@ -1290,6 +1290,25 @@ impl Model {
                     self.poll_nodes.push(op);
                 }
             }
+            Op::CycleBurst { .. } => {
+                if is_inner {
+                    return err("not inside a closure");
+                }
+            }
+            Op::SpanBurst { slot, n } => {
+                if is_inner {
+                    return err("not inside a closure");
+                }
+                let p = self.use_span(*slot, op)?;
+                if p.recording {
+                    for _ in 0..*n {
+                        let items: Vec<Item> = Model::issue(&p);
+                        let sp = self.new_span(op, t, items, None, 0);
+                        self.finish_span(sp, op);
+                    }
+                    self.poll_nodes.push(op);
+                }
+            }
             Op::ScopeBurst { slot, n } => {
                 let sp = self.use_span(*slot, op)?;
                 if sp.recording {
